@@ -19,7 +19,37 @@ from html.parser import HTMLParser
 
 from ..common import Ctx, S, unS, run_model, known_matcher, canon, VERIF
 from .. import trees
-from ..trees import safe_call
+
+
+def safe_call(f, *a, **kw):
+    """Run code of the implementation: ANY exception becomes the value ("exc", type name), which
+    is compared with the model / judged by the oracles like any other result.  (The model of C13
+    has no error results of its own; where the harness decodes model output with json.loads and
+    the HTMLDependency constructor, the same mapping is applied on both sides.)"""
+    try:
+        return ("ok", f(*a, **kw))
+    except Exception as e:  # noqa: BLE001
+        return ("exc", type(e).__name__)
+
+
+_EXC: dict[str, list] = {}
+
+
+def record_exc(ctx, stage: str, case, res) -> None:
+    """an exception on a valid input is a violation with that input as the replay (the smallest
+    such input per exception type and stage is reported by flush_exc)"""
+    _EXC.setdefault(f"valid input raised {res[1]} ({stage})", []).append((case, res))
+
+
+def flush_exc(ctx) -> None:
+    for what, lst in _EXC.items():
+        lst.sort(key=lambda x: len(canon(x[0])))
+        case, res = lst[0]
+        ctx.violation(what, case, {"impl_output": list(res), "expected": "no exception: the input is valid",
+                                   "failing_cases_in_this_run": len(lst)})
+    ctx.extra["valid_inputs_that_raised"] = {k: len(v) for k, v in _EXC.items()}
+    _EXC.clear()
+
 
 import htmltools
 from htmltools import HTML, HTMLDependency, HTMLDocument, HTMLTextDocument, Tag, TagList
@@ -56,6 +86,9 @@ FRAGS = CLOSERS + ["<!--", "-->", "<script>", "<SCRIPT>", "<!--<script>", OPEN_T
                    "\r", "\t", "\x00", "\x1f", "\x7f", "\x08", "\x0c", "é", " ", " ",
                    "\U0001F600", "퟿", "", "￿", "\U00010000", "\U0010ffff", "<", "/",
                    ">", "&lt;/script&gt;", "&amp;", "]]>", "'", "{", "}", ":", ",", " ", "a", "x.js"]
+BACKSLASHES = ["\\\\", "\\n", "\\g<0>", "\\1", "\\d+", "/\\d+/", "'\\n'", "C:\\Users\\x\\lib", "x\\", "\\g<name>",
+               "\\\\1", "a\\tb", "\\0", "\\x41"]
+FRAGS += BACKSLASHES
 VERSIONS = ["1.0", "2.3.4", "0.1", "1.0.0a1", "10", "1.2.post1", "3.0.0.dev2", "1!2.0"]
 TAME = ["a", "x.js", "lib-1", "foo bar", "css/site.css", "jquery", "d3"]
 
@@ -288,7 +321,7 @@ def tokenize(s: str) -> list:
 def oracle_element(case, out):
     """case = {kind:'serialise', dep, indent}; out = safe_call result of get_html_string()."""
     if out[0] != "ok":
-        return ("exception", f"serialize_to_script_json raised {out}")
+        return (f"valid input raised {out[1]} (serialize_to_script_json().get_html_string())", None)
     e = out[1]
     want = dep_canon(build_dep(case["dep"]))
     if not (e.startswith(OPEN_TAG) and e.endswith(CLOSE_TAG) and len(e) >= len(OPEN_TAG) + len(CLOSE_TAG)):
@@ -490,7 +523,9 @@ def run(ctx: Ctx) -> None:
         "copies of 1-3 dependencies (duplicates, different indents) "
         "interleaved with hostile text free of the opening tag; placeholders occurring 0-3 times, also "
         "overlapping and empty; pipelines: random tag trees holding dependencies rendered in json mode and "
-        "directly. Non-trivial = contains at least one of quote, backslash, '<', control or non-ASCII character "
+        "directly; backslash-bearing strings (doubled backslash, backslash-n as two characters, group references, "
+        "backslash-d, a Windows path, a trailing backslash) in names, attribute / meta values and head markup of "
+        "every scenario, hand-written for render and pipeline. Non-trivial = contains at least one of quote, backslash, '<', control or non-ASCII character "
         "(strings) / at least one serialised copy (documents); distinct = distinct canonical inputs.")
     ctx.assumptions = [
         "the extracted OCaml model behaves as the Gallina model (ExtrOcamlBasic only)",
@@ -499,6 +534,7 @@ def run(ctx: Ctx) -> None:
         "Python's html.parser is used as a second HTML tokenizer next to the statement's own '</script' test",
         "strings are sequences of Unicode scalar values (no lone surrogates)",
     ]
+    _EXC.clear()
     pr = ctx.proof()
 
     # T1 at full strength is the theorem C13_no_close_tag_status : C13_T1_holds (the file can only say
@@ -516,8 +552,26 @@ def run(ctx: Ctx) -> None:
     # =========================================================================================
     batch = Batch()
     batch.add("tables", [[7]])
-    probe = HTMLDependency("p", "1").serialize_to_script_json().get_html_string()
-    live_keys = list(json.loads(probe[len(OPEN_TAG):-len(CLOSE_TAG)]).keys()) if probe.startswith(OPEN_TAG) else []
+    pr0 = safe_call(lambda: HTMLDependency("p", "1").serialize_to_script_json().get_html_string())
+    if pr0[0] != "ok":
+        record_exc(ctx, "serialize_to_script_json()", {"kind": "serialise", "dep": simple_dep("name", "p"), "indent": None}, pr0)
+    probe = pr0[1] if pr0[0] == "ok" else ""
+    lk = safe_call(lambda: list(json.loads(probe[len(OPEN_TAG):-len(CLOSE_TAG)]).keys()))
+    live_keys = lk[1] if probe.startswith(OPEN_TAG) and lk[0] == "ok" else []
+
+    def precompute(stage, cases, f):
+        """f(case) runs implementation code to prepare a case; a case on which it raises is reported
+        (valid input raised ...) and left out of what follows"""
+        kept, vals = [], []
+        for c in cases:
+            r = safe_call(f, c)
+            if r[0] == "ok":
+                kept.append(c)
+                vals.append(r[1])
+            else:
+                ctx.count(c, True, "input on which the implementation raised")
+                record_exc(ctx, stage, c, r)
+        return kept, vals
 
     # ---- B1: json.dumps(str) ------------------------------------------------------------------
     if ctx.quick:
@@ -588,7 +642,8 @@ def run(ctx: Ctx) -> None:
         vals["head"] = TagList(dep.head).get_html_string() if dep.head is not None else None
         return json.dumps({k: vals[k] for k in live_keys}, indent=case["indent"])
 
-    batch.add("ser", [[8, S(dumps_of(c))] for c in ser_cases])
+    ser_cases, ser_dumps = precompute("building the dependency / rendering its head", ser_cases, dumps_of)
+    batch.add("ser", [[8, S(d)] for d in ser_dumps])
 
     # ---- B/C 2: extraction from documents -------------------------------------------------------
     def rand_text_noopen():
@@ -602,7 +657,8 @@ def run(ctx: Ctx) -> None:
         items = [(rng.randrange(len(pool)), rng.choice([None, None, 0, 2, 4])) for _ in range(n)]
         doc_cases.append({"kind": "doc", "pool": pool, "items": items,
                           "texts": [rand_text_noopen() for _ in range(n + 1)]})
-    doc_exp = [doc_expected(c) for c in doc_cases]            # (document, (remaining, deps))
+    doc_cases, doc_exp = precompute("serialize_to_script_json() while assembling the document", doc_cases,
+                                    doc_expected)                 # (document, (remaining, deps))
     batch.add("doc", [[4, S(d)] for d, _ in doc_exp])
     # malformed stream (correspondence only: unterminated openers, stray closers, payloads that are
     # not JSON / not dependency records)
@@ -636,15 +692,22 @@ def run(ctx: Ctx) -> None:
         ren_cases.append({"kind": "render", "ph": ph, "pool": pool, "items": items, "texts": texts, "extra": extra,
                           "lib_prefix": rng.choice(["lib", "lib", None, "x/y", ""]),
                           "include_version": rng.random() < 0.7})
-    ren_pre = []
-    for case in ren_cases:
+    # strings a regex-based replacement would read as escapes, in every place that reaches the markup
+    for b in BACKSLASHES:
+        for fld in ("name", "attr", "meta", "head", "headscript", "src", "source"):
+            ren_cases.append({"kind": "render", "ph": '<meta data-foo="">', "pool": [simple_dep(fld, "a" + b + "z")],
+                              "items": [(0, None)], "texts": ['<head><meta data-foo="">', "</head>" + b], "extra": [],
+                              "lib_prefix": "lib", "include_version": True})
+
+    def ren_prepare(case):
         out, sers = render_run(case)
         remaining, deps, markup = render_expect(case, sers)
         # the dependencies as HTMLTextDocument holds them (heads are markup strings by then)
         held = [build_dep(d) for d in case["extra"]] + [dep_from_payload(json.dumps(dict(dep_canon(d))))
                                                         for d in deps[len(case["extra"]):]]
-        ren_pre.append((out, remaining, deps, markup))
-        ren_pre[-1] += (code_markup(held, case),)
+        return (out, remaining, deps, markup, code_markup(held, case))
+
+    ren_cases, ren_pre = precompute("preparing the document / HTMLDocument reference rendering", ren_cases, ren_prepare)
     batch.add("ren", [[5, S(c["ph"]), S(p[4]), S(p[1])] for c, p in zip(ren_cases, ren_pre)])
 
     batch.run()
@@ -708,7 +771,9 @@ def run(ctx: Ctx) -> None:
     exp_of = {id(c): e for c, e in zip(doc_cases, doc_exp)}
 
     def oracle_doc(case, out):
-        if out != ("ok", exp_of[id(case)][1]):
+        if out[0] == "exc":
+            record_exc(ctx, "_static_extract_serialized_html_deps", case, out)
+        elif out != ("ok", exp_of[id(case)][1]):
             bad_docs.append((case, out))
 
     diff(ctx, "_static_extract_serialized_html_deps vs extract", doc_cases, batch.get("doc"),
@@ -729,6 +794,9 @@ def run(ctx: Ctx) -> None:
     for case, (out, remaining, deps, markup, _mk) in zip(ren_cases, ren_pre):
         ctx.count(case, case["ph"] in remaining, f"render, placeholder x{min(remaining.count(case['ph']) if case['ph'] else 1, 3)}")
         want_deps = [dep_canon(d) for d in deps]
+        if out[0] == "exc":
+            record_exc(ctx, "HTMLTextDocument(...).render()", case, out)
+            continue
         ok = out[0] == "ok" and out[1][1] == want_deps
         if ok:
             html = out[1][0]
@@ -763,20 +831,29 @@ def run(ctx: Ctx) -> None:
     ctx.extra["render_markup_equal_only_modulo_line_breaks"] = lenient_only
     # outside the statement: no placeholder given at all
     r = safe_call(lambda: HTMLTextDocument("<html></html>").render())
-    ctx.extra["note_render_without_pattern"] = f"HTMLTextDocument(html).render() with deps_replace_pattern=None -> {r[0]} {r[1] if r[0] == 'err' else ''} (TypeError=3; existing behaviour, outside the statement)"
+    ctx.extra["note_render_without_pattern"] = f"HTMLTextDocument(html).render() with deps_replace_pattern=None -> {r[0]} {r[1] if r[0] == 'err' else ''} (existing behaviour, outside the statement)"
 
     # ---- C 4: json-mode str() + HTMLTextDocument  ==  HTMLDocument ------------------------------
     bad_pipe = []
     n_strict = n_len = 0
+    pipe_cases = []
+    for k, b in enumerate(BACKSLASHES):
+        for fld in ("name", "attr", "meta", "head", "headscript"):
+            pipe_cases.append({"kind": "pipeline", "pool": [simple_dep(fld, "a" + b + "z")], "ph": '<meta data-foo="">',
+                               "tree": ("G", "div", True, [], [("T", "t" + b)]), "slots": [0.3, 0.6, 0.1, 0.9],
+                               "ph_count": 1 + k % 2, "top": "tag" if k % 2 else "list", "lib_prefix": "lib",
+                               "include_version": True})
     for _ in range(ctx.budget(300, 6000)):
         nd = rng.choice([0, 1, 2, 2, 3])
         names = [rng.choice(TAME + ["n1", "n2"]) if rng.random() < 0.5 else hostile(rng, 2) for _ in range(nd)]
         pool = [rand_dep(rng, renderable=True, name=names[i]) for i in range(nd)]
         ph = rng.choice(['<meta data-foo="">', "<!-- deps -->", "{{deps}}"])
         tree = trees.rand_tree(rng, rng.choice([1, 2, 3]), leaves="TTHM", names="bbiv")
-        case = {"kind": "pipeline", "pool": pool, "ph": ph, "tree": tree, "slots": [rng.random() for _ in range(nd + 3)],
-                "ph_count": rng.choice([1, 1, 2]), "top": rng.choice(["tag", "list"]),
-                "lib_prefix": rng.choice(["lib", None, "x/y"]), "include_version": rng.random() < 0.7}
+        pipe_cases.append({"kind": "pipeline", "pool": pool, "ph": ph, "tree": tree, "slots": [rng.random() for _ in range(nd + 3)],
+                           "ph_count": rng.choice([1, 1, 2]), "top": rng.choice(["tag", "list"]),
+                           "lib_prefix": rng.choice(["lib", None, "x/y"]), "include_version": rng.random() < 0.7})
+    for case in pipe_cases:
+        nd = len(case["pool"])
         r = pipeline_check(case)
         ctx.count(case, nd > 0, f"pipeline with {nd} dependencies")
         if isinstance(r, str):
@@ -786,6 +863,10 @@ def run(ctx: Ctx) -> None:
                 n_len += 1
         else:
             bad_pipe.append((case, r))
+    for case, r in bad_pipe:
+        if "exc" in r:
+            record_exc(ctx, "json-mode str() / HTMLTextDocument / HTMLDocument pipeline", case, ("exc", r["exc"]))
+    bad_pipe = [x for x in bad_pipe if "exc" not in x[1]]
     if bad_pipe:
         bad_pipe.sort(key=lambda x: len(canon(x[0])))
         case, r = bad_pipe[0]
@@ -797,6 +878,7 @@ def run(ctx: Ctx) -> None:
         "a dependency head given as Tag objects comes back as one markup string, so the line break TagList "
         "rendering puts between it and a neighbouring element can differ (newline vs nothing) between "
         "HTMLTextDocument and HTMLDocument; the markup itself is identical -- counted separately, not a violation")
+    flush_exc(ctx)
 
 
 def render_once(case):
@@ -840,7 +922,7 @@ def pipeline_check(case):
         post = HTMLTextDocument(s, deps_replace_pattern=case["ph"]).render(**kw)
     except Exception as ex:  # noqa: BLE001
         htmltools.html_dependency_render_mode = "invisible"
-        return {"what": f"exception {type(ex).__name__}: {ex}"}
+        return {"what": f"valid input raised {type(ex).__name__}: {ex}", "exc": type(ex).__name__}
     d_deps = [dep_canon(d) for d in direct["dependencies"]]
     p_deps = [dep_canon(d) for d in post["dependencies"]]
     if d_deps != p_deps:
